@@ -95,7 +95,8 @@ type mmsg struct {
 type mtopic struct {
 	started     bool
 	msgs        []*mmsg
-	lastArrival int // ticks pushed at last accepted-or-maybe arrival
+	lastArrival int // ticks pushed at the last arrival that MAY have been stored (upper bound of the topic's last use)
+	lastMust    int // ticks pushed at the last arrival that MUST have been stored (lower bound of the topic's last use)
 }
 
 type c15model struct {
@@ -138,9 +139,11 @@ func (r *c15run) definitelyExpired(t *mtopic) bool {
 func (r *c15run) definitelyFresh(t *mtopic) bool {
 	if r.hist.RealClock {
 		// real time may have advanced further than the sleeps asked for: fresh only if no sleep happened since
-		return r.model.ticks == t.lastArrival
+		return r.model.ticks == t.lastMust
 	}
-	return r.model.ticks-(t.lastArrival-1) <= r.model.ratio
+	// only an arrival that must have been stored is known to have refreshed the topic (a message the box may have dropped
+	// because its sender was over a limit refreshes nothing)
+	return r.model.ticks-(t.lastMust-1) <= r.model.ratio
 }
 
 func (r *c15run) live(sender uint16, except string) (must, may int) {
@@ -250,6 +253,9 @@ func (r *c15run) exec() (string, string) {
 					delete(r.swept, st.Topic)
 					r.gcRounds[st.Topic] = 0
 				}
+				if status == stMust {
+					t.lastMust = m.ticks
+				}
 			}
 		case "send":
 			t := m.topics[st.Topic]
@@ -265,6 +271,7 @@ func (r *c15run) exec() (string, string) {
 			t.started = true
 			t.msgs = nil
 			t.lastArrival = m.ticks
+			t.lastMust = m.ticks
 			r.noteGC(st.Topic)
 		case "gc":
 			r.gcSeq++
